@@ -107,9 +107,28 @@ fn extreme_programs() -> Vec<String> {
     v
 }
 
+// A callable taken from a value (bound type function, bound method, builtin)
+// and called after it travelled: whatever receiver it ends up with, the call
+// completes or is reported.
+fn routed_callable_cases() -> Vec<(Case, bool)> {
+    let pre = "o := {\"n\": \"héllo\", \"m\": fn () {\n    return this.n\n}, \"t\": fn () {\n    return this->type()\n}}\ns := \"héllo\"\nxs := [1, 2]\n";
+    let callables = ["s->len", "\"é\"->len", "s->type", "5->type", "xs->type", "o->type", "o.m", "o[\"m\"]", "o.t", "print", "print->type", "o.m->type", "(fn () { return this; })", "null->type"];
+    let mut out = vec![];
+    for b in callables {
+        for (route, body) in callable_routes(b) {
+            let src = format!("{pre}{body}print(\"done\")\n");
+            out.push((Case{property: "C02".into(), kind: "routed_callable".into(), srcs: vec![src.into_bytes()], pred: Pred::Expect(Expect::nocrash()), note: format!("`{b}` called after: {route}")}, true));
+        }
+    }
+    out
+}
+
 pub fn run(ctx: &Ctx) {
-    ctx.set_rule("(a) exhaustive matrix: 18 alias shapes over <= 3 containers (alias, container inside another, inside itself, inside its comparand, shared child, object <-> list cycles, multi-byte strings, functions) x ~330 operations (every binary operator in 9 operand arrangements, op-assign on variable / element / property, element / property / range assignment with the container on both sides, spread, for with mutation, destructuring onto own slots, calls that alias arguments, interpolation); (b) the C06 boundary grid and extreme ranges / indices judged for 'no crash'; (c) multi-byte literals, slices, interpolation; (d) hostile random programs (25% sloppy choices, boundary integers, aliasing). Oracle: exit 0 or 103, no panic / abort / signal / hang. Non-trivial = the case has an alias on both sides of an operation, a self-containing container, a boundary integer or a multi-byte literal; distinct = distinct source texts");
+    ctx.set_rule("(a) exhaustive matrix: 18 alias shapes over <= 3 containers (alias, container inside another, inside itself, inside its comparand, shared child, object <-> list cycles, multi-byte strings, functions) x ~330 operations (every binary operator in 9 operand arrangements, op-assign on variable / element / property, element / property / range assignment with the container on both sides, spread, for with mutation, destructuring onto own slots, calls that alias arguments, interpolation); (b) the C06 boundary grid and extreme ranges / indices judged for 'no crash'; (c) multi-byte literals, slices, interpolation; (e) 14 callables (bound type functions, bound methods, builtins, a function reading `this`) x 19 routes before the call (variable, list, argument, return, closure, spread, rest parameter, pattern, for, slice, range assignment, capture, object property / index); (d) hostile random programs (25% sloppy choices, boundary integers, aliasing). Oracle: exit 0 or 103, no panic / abort / signal / hang. Non-trivial = the case has an alias on both sides of an operation, a self-containing container, a boundary integer or a multi-byte literal; distinct = distinct source texts");
     ctx.replay_corpus(None);
+    let rc = routed_callable_cases();
+    ctx.label_n("callable x route before the call", rc.len() as u64);
+    ctx.judge_all(rc, Via::Cli, None);
     // (a)
     let mut cases = vec![];
     let can_discard = worker_available();
